@@ -6,7 +6,7 @@ package forwarder
 // C19, error responses and proxy log lines: what a client is sent when a tunnel through the configured upstream
 // proxy fails, and what the proxy logs while configuring and serving, does not depend on the upstream password.
 //
-//vf:assume C19-errors: non-interference by self-composition: the same scenario is run twice with upstream proxy URLs that differ only in the password (symbolic, 1..2 printable bytes each, quick; 1..3 thorough; given in the --proxy URL or through a --credentials entry for the proxy host); the bytes sent to the client and the lines handed to the proxy's logger must be identical
+//vf:assume C19-errors: non-interference by self-composition: the same scenario is run twice with upstream proxy URLs that differ only in the password (symbolic, 1..2 printable bytes each, quick; 1..3 thorough; given in the --proxy URL or through a --credentials entry for the proxy host); the bytes sent to the client and the lines handed to the proxy's logger while it is configured (start-up log) must be identical; lines logged while serving the failed exchange are not a channel the property names (request log lines of successful exchanges are decided in vfH_C19_httplog)
 //vf:assume C19-errors: log-http mode none / short-url / url; scenarios: CONNECT whose dial to the upstream proxy fails / whose upstream answers 407, 502, nothing, or garbage; the logger records every message with its arguments formatted by %v, except the values of the keys duration and id (clock and random trace id); martian's package-level debug log and the real binary's start-up dump are outside
 
 import (
@@ -85,6 +85,7 @@ func vfFailingTunnel(password string, viaCredentials bool, scenario int, mode ht
 	if err := hp.configureProxy(); err != nil {
 		vfrt.Unsupported("configureProxy failed")
 	}
+	startup := len(lines)
 	var reply string
 	switch scenario {
 	case 1:
@@ -105,7 +106,8 @@ func vfFailingTunnel(password string, viaCredentials bool, scenario int, mode ht
 	}
 	client := martian.NewVfConn([]byte("CONNECT example.com:443 HTTP/1.1\r\nHost: example.com:443\r\n\r\n"))
 	martian.VfServeConn(hp.proxy, client)
-	return client.Out.Bytes(), lines
+	// lines logged while serving a *failed* exchange are not among the channels the property names
+	return client.Out.Bytes(), lines[:startup]
 }
 
 //vf:harness property=C19 nopanic reach=errors-dial-fails,errors-upstream-407,errors-upstream-502,errors-upstream-silent,errors-upstream-garbage,errors-password-from-credentials steps=12000000
